@@ -5,7 +5,7 @@ CHECKS="$@"
 [ -z "$CHECKS" ] && CHECKS="C01 C02 C03 C04 C05 C06 C07 C08 C09 C10 C11 C12 C13 C14 C15 C16 C17 C18 C19"
 for c in $CHECKS; do
   s=$(date +%s)
-  out=$(VERIF_SEED=$SEED VERIF_OUT_DIR=/tmp/sweepout ./run.sh $c $TIER 2>&1); rc=$?
+  out=$(VERIF_SEED=$SEED VERIF_OUT_DIR=/tmp/sweepout-$SEED-$TIER ./run.sh $c $TIER 2>&1); rc=$?
   e=$(date +%s)
   echo "$c seed=$SEED $TIER rc=$rc t=$((e-s))s $(echo "$out" | grep -E "^$c $TIER" | sed 's/.*evaluations/evaluations/') $(echo "$out" | grep -c '^VIOLATION') viol $(echo "$out" | grep -c '^INCONCLUSIVE') inconcl"
   if [ $rc -ne 0 ]; then echo "$out" | grep -E "signature|BROKEN|INCONCL|panic|BUILD" | head -5; fi
